@@ -6,6 +6,7 @@ import (
 	"flag"
 	"fmt"
 	"os"
+	"reflect"
 	"regexp"
 	"time"
 	"unicode/utf8"
@@ -48,21 +49,30 @@ const mappedString = "MAPPED"
 func facts(m protoreflect.Message, depth int, mapped bool, out *[]node) {
 	n := node{Depth: depth}
 	md := m.Descriptor()
+	// well-known types are recognised by NAME: a dynamicpb-backed Timestamp is a Timestamp
+	concrete := func(dst proto.Message) bool {
+		if reflect.TypeOf(m.Interface()) == reflect.TypeOf(dst) {
+			proto.Merge(dst, m.Interface())
+			return true
+		}
+		b, err := proto.Marshal(m.Interface())
+		return err == nil && proto.Unmarshal(b, dst) == nil
+	}
 	switch md.FullName() {
 	case "google.protobuf.Timestamp":
-		if ts, ok := m.Interface().(*timestamppb.Timestamp); ok && ts.CheckValid() != nil {
+		if ts := new(timestamppb.Timestamp); !concrete(ts) || ts.CheckValid() != nil {
 			n.TsBad++
 		}
 		*out = append(*out, n)
 		return
 	case "google.protobuf.Duration":
-		if d, ok := m.Interface().(*durationpb.Duration); ok && d.CheckValid() != nil {
+		if d := new(durationpb.Duration); !concrete(d) || d.CheckValid() != nil {
 			n.DurBad++
 		}
 		*out = append(*out, n)
 		return
 	case "google.protobuf.FieldMask":
-		if fm, ok := m.Interface().(*fieldmaskpb.FieldMask); ok {
+		if fm := new(fieldmaskpb.FieldMask); concrete(fm) {
 			if len(fm.Paths) < 1 || len(fm.Paths) > 5 {
 				n.MaskBad++
 			}
@@ -75,7 +85,7 @@ func facts(m protoreflect.Message, depth int, mapped bool, out *[]node) {
 		*out = append(*out, n)
 		return
 	case "google.protobuf.Any":
-		if a, ok := m.Interface().(*anypb.Any); ok {
+		if a := new(anypb.Any); concrete(a) {
 			mt, err := protoregistry.GlobalTypes.FindMessageByURL(a.TypeUrl)
 			if err != nil {
 				n.AnyBad++
@@ -252,10 +262,13 @@ func cmdRapidgen(args []string) {
 	n := fs.Int("n", 20, "examples per option set")
 	seed := fs.Int("seed", 1, "")
 	out := fs.String("out", "", "events")
+	dyn := fs.Bool("dynamic", false, "generate for the dynamicpb message of this descriptor (all nested messages, well-known types included, are then dynamic)")
 	fs.Parse(args)
 	var zero proto.Message
 	if *typ == "google.protobuf.Any" {
 		zero = &anypb.Any{}
+	} else if *dyn {
+		zero = dynamicpb.NewMessage(findType(*typ).Descriptor())
 	} else {
 		zero = findType(*typ).New().Interface()
 	}
